@@ -86,9 +86,6 @@ theorem parity_append_byte (xs : List Bool) (b : Nat) :
 
 /-! ### the model's loop -/
 
-/-- every element is a byte -/
-def Bytes (bs : List Nat) : Prop := ∀ b ∈ bs, b < 256
-
 theorem crcLoop_cons (b : Nat) (rest : List Nat) (r : BitVec 24) (hb : b < 256) :
     crcLoop (b :: rest) r.toNat = crcLoop rest (next r b).toNat := by
   have hr := r.isLt
@@ -183,5 +180,37 @@ theorem modesChecksum_eq (msg : List Nat) (h : 3 ≤ msg.length) (hb : Bytes msg
   rw [hl]
   exact modesChecksum_split data m1 m2 m3 (fun x hx => hb x (by simp [hx]))
     (hb m1 (by simp)) (hb m2 (by simp)) (hb m3 (by simp))
+
+/-- remainder of a frame as a number -/
+def syndrome (frame : List Nat) : Nat := (polyMod (bits frame)).toNat
+
+/-! ### the overlay on the specification side -/
+
+theorem apField_bits (data : List Nat) (a : Nat) :
+    bits (apField data a) = bitsN 24 ((parity (bits data)).toNat ^^^ a) :=
+  bits_pack _ (by simp [bitsN_length])
+
+theorem apField_length (data : List Nat) (a : Nat) : (apField data a).length = 3 := by
+  rw [apField, pack_length, bitsN_length]
+
+theorem encodeAP_bytes (data : List Nat) (a : Nat) (hd : Bytes data) : Bytes (encodeAP data a) := by
+  intro x hx
+  simp only [encodeAP, List.mem_append] at hx
+  rcases hx with hx | hx
+  · exact hd x hx
+  · exact pack_bytes _ x hx
+
+theorem encodeAP_length (data : List Nat) (a : Nat) : (encodeAP data a).length = data.length + 3 := by
+  simp [encodeAP, apField_length]
+
+/-- **the overlay is undone by the remainder**: whatever the data, whatever the address -/
+theorem syndrome_encodeAP (data : List Nat) (a : Nat) (ha : a < 2 ^ 24) :
+    syndrome (encodeAP data a) = a := by
+  unfold syndrome encodeAP
+  rw [bits_append, apField_bits, polyMod_append24 _ _ (by simp [bitsN_length]), BitVec.toNat_xor,
+    polyMod_short _ (by simp [bitsN_length]), valBE_bitsN]
+  have hp := (parity (bits data)).isLt
+  generalize (parity (bits data)).toNat = p at *
+  rw [Nat.mod_eq_of_lt (Nat.xor_lt_two_pow hp ha), ← Nat.xor_assoc, Nat.xor_self, Nat.zero_xor]
 
 end Rs1090.Proofs.Crc
